@@ -69,6 +69,10 @@ def run(ctx, replay):
         for s in [x for x in chosen if len(x) <= 2] + rng.sample(deep, 60 if quick else 600):
             sc = dict(rng.choice(scripts(rng, full=True)), hijack=False, flush=False, tryhijack=True)
             steps.append({"layers": s, "script": sc, "via": "recorder"})
+        # handlers that send an informational response (103) before the final status
+        for s in [x for x in chosen if len(x) <= 2] + rng.sample(deep, 40 if quick else 400):
+            sc = dict(rng.choice(scripts(rng, full=True)), hijack=False, early=True, status=rng.choice([200, 404, 500, 201]))
+            steps.append({"layers": s, "script": sc})
         scs = [{"id": "stacks-%d" % i, "cfg": {}, "steps": steps[i:i + 200]} for i in range(0, len(steps), 200)]
     tp = vlib.run_scenarios(ctx, "stack", scs, "c20", hang_s=60)
     res = vlib.validate_trace(ctx, "Trace_Stack", tp, "c20")
